@@ -34,9 +34,11 @@ func (e *Engine) unitRelevant(con *Contract, prop string) bool {
 	var all []*Clause
 	all = append(all, con.Requires...)
 	all = append(all, con.Ensures...)
+	all = append(all, con.AtCalls...)
 	for _, ls := range con.Loops {
 		all = append(all, ls.Invariants...)
 		all = append(all, ls.Steps...)
+		all = append(all, ls.Exits...)
 	}
 	for _, c := range all {
 		if hasTag(c.Tags, prop) {
